@@ -210,8 +210,11 @@ TABLE = {
              "DisconnectWakesAll and Termination. Every edge of the dumped graphs (capped in quick) is replayed on the real signal<int>/"
              "signal<void> - sequentially with scripted coroutines and callbacks, concurrently with real threads under the controlled scheduler - "
              "comparing chain, value pointer/storage, use_count, suspend point and queue contents, per-listener received values and states, "
-             "callback ctor/dtor and allocation balance, and each thread's pending operation after every step.",
+             "callback ctor/dtor and allocation balance, and each thread's pending operation after every step. SignalFine.tla repeats the "
+             "concurrent model at the finest replayable grain (each atomic operation and the plain code following it as separate steps; "
+             "invariant HandleSetBeforePublication) for 1 collector + 1-2 arriving listener threads, replayed under vsched yield_after.",
         note="bounds: <=3 listeners, <=4 emits (sequential), 1 collector + <=3 listener threads + <=2 pre-subscribed, <=3 emits (concurrent), int/void; "
+             "finest grain: <=3 listeners (thorough), 1-2 emits; "
              "delivery properties claimed only for the documented discipline (suspend point released and listeners run before the next call / last "
              "drop); shared_ptr refcount and plain accesses are not scheduling points; weak CAS as strong; TCB: TLC, vsched, projection code, c15.py's edge cover",
         design_ref="6/C15, 3.11"),
@@ -240,7 +243,7 @@ TABLE = {
              "into its owners (handles, coroutine frames, the resolve tracer's self-reference, the charge() parameter) and the awaiter chain of "
              "the underlying future, for every way of making a shared_future (both template constructors, a function returning a pending or "
              "ready future, a suspending or synchronously finishing async coroutine, set_value/set_exception, get_promise() on a "
-             "default-constructed object, operator<<). TLC checks exhaustively, for all interleavings of one resolver (value / exception / "
+             "default-constructed object or after init_if_needed() with copies already handed out, operator<<). TLC checks exhaustively, for all interleavings of one resolver (value / exception / "
              "drop / promise destruction / coroutine completion) with 1-3 threads that copy, co_await, wait(), subscribe callbacks, poll and "
              "drop handles, that the state is alive exactly while referenced and in particular while pending, that the tracer holds its "
              "reference exactly while pending and is the last node of the chain, that the stored value is destroyed exactly once with the "
